@@ -282,6 +282,8 @@ func checkC03(c *Ctx, r *Report) {
 	}, "a name over 255 octets, a reserved label type, an overrunning label or a pointer loop in that field unpacks without an error, as an empty name")
 	borrow(c, r, c06R1, "C06.R1.absolute-names", "C03.R4.absolute-names", 30, "every name field a parse method sets ends up as toAbsoluteName(token, origin) on the success paths", nil, "a relative name in that field comes back not fully qualified and the packer refuses it")
 	escapeFlagSet(c, r, "C03.R2.escape-flag-set")
+	pointerLimitAdmitsOwnOutput(c, r, "C03.R1.pointer-limit")
+	lexerKeepsEscaped(c, r, "C03.R3.lexer-keeps-escaped")
 }
 
 func c03R2(c *Ctx, r *Report) {
